@@ -344,10 +344,10 @@ func (en *DefaultEngine) runFirst(ctx context.Context) (bool, error) {
 	defer func() { en.st.SizeIdx = idx }()
 	if ca, ok := en.ca.(*cache.Cache); ok {
 		// the content of the first function replaces the session's last value only when it ends the request
-		last := ca.LastValue
+		last, lastFrame := ca.LastValue, ca.LastFrame
 		defer func() {
 			if r {
-				ca.LastValue = last
+				ca.LastValue, ca.LastFrame = last, lastFrame
 			}
 		}()
 	}
